@@ -101,7 +101,10 @@ class PyModules:
         for f in m.sorted_fields:
             t = f.type
             if raw_enum and isinstance(t, Ref) and isinstance(t.target, Enum):
-                out[f.number] = int(getattr(obj, "_enum_field_proxy__" + f.name))
+                # the integer proxy of an enum field: any instance attribute whose name ends with the field name (the prefix
+                # is an implementation detail of the generator and may change)
+                cands = [k for k, v in vars(obj).items() if k != f.name and k.endswith(f.name) and isinstance(v, int)]
+                out[f.number] = int(vars(obj)[cands[0]]) if cands else int(getattr(obj, f.name))
             else:
                 out[f.number] = self._fetch(getattr(obj, f.name), t, raw_enum)
         return out
